@@ -98,6 +98,8 @@ let handle (w : string list) : string =
       Hashtbl.replace encs id s;
       Hashtbl.replace last id (match r with Py.Ok b -> Some b | Py.Err _ -> None);
       out_str hex_of_bytes r ^ " " ^ show_enc s
+  | ["dnewd"; id] ->
+      let d = Decoder.coq_Decoder_init Data.coq_DEFAULT_MAX_HEADER_LIST_SIZE in Hashtbl.replace decs id d; "ok " ^ show_dec d
   | ["dnew"; id; l] -> let d = Decoder.coq_Decoder_init (z_of_string l) in Hashtbl.replace decs id d; "ok " ^ show_dec d
   | ["dsetmax"; id; v] | ["dsetsize"; id; v] | ["dsetlist"; id; v] ->
       let v = z_of_string v in
